@@ -5,8 +5,9 @@ import BtcwVerif.Lemmas.Calls
 
 * `LWF L` — well-formedness of a ledger (what every chain-consistent history maintains): one block per height in
   ascending order, every known transaction once, credits name outputs of known transactions, no confirmed double spend,
-  parents confirmed at or below their children, spends are acyclic, unconfirmed transactions are neither coinbases nor
-  in conflict with a confirmed transaction, inputs naming a known transaction name an existing output.
+  parents confirmed at or below their children, spends are acyclic, unconfirmed transactions are not coinbases,
+  inputs naming a known transaction name an existing output.  `NoConflict L`: no unconfirmed transaction conflicts
+  with a confirmed one.
 * `Refines s L` — bucket by bucket, the store holds exactly the entries the ledger expects (`Ledger.exp…`,
   Model/Refine.lean; the executable form `Ledger.refinesB` is evaluated on every generated history).
 * `Good s L` = `WF2 s` ∧ `LWF L` ∧ `Refines s L`: the invariant of the simulation.
@@ -148,15 +149,17 @@ structure LWF (L : Ledger) : Prop where
     ∃ bm, q.2 = some bm ∧ bm.block.height ≤ p.2.block.height
   /-- spends among known transactions are acyclic (transactions are hash-linked) -/
   rank : ∃ rk : Nat → Nat, ∀ p ∈ known L, ∀ i ∈ p.1.ins, ∀ q ∈ known L, q.1.hash = i.hash → rk i.hash < rk p.1.hash
-  /-- an unconfirmed transaction does not conflict with a confirmed one -/
-  poolNoChainConflict : ∀ t ∈ L.pool, ∀ i ∈ t.ins, spentConfirmed L i = false
   /-- inputs naming a known transaction name one of its outputs -/
   validRefs : ∀ p ∈ known L, ∀ i ∈ p.1.ins, ∀ q ∈ known L, q.1.hash = i.hash → i.index < q.1.outs.length
   outsBound : ∀ p ∈ known L, p.1.outs.length ≤ nullIndex
 
 theorem lwf_empty : LWF {} := by
-  refine ⟨List.Pairwise.nil, List.nodup_nil, List.nodup_nil, ?_, ?_, List.nodup_nil, ?_, ⟨fun _ => 0, ?_⟩, ?_, ?_, ?_⟩
+  refine ⟨List.Pairwise.nil, List.nodup_nil, List.nodup_nil, ?_, ?_, List.nodup_nil, ?_, ⟨fun _ => 0, ?_⟩, ?_, ?_⟩
   all_goals intro p hp; cases hp
+
+/-- an unconfirmed transaction does not conflict with a confirmed one (kept next to `Good`: it holds between events,
+not in the middle of *confirmed*, and only the history queries need it) -/
+def NoConflict (L : Ledger) : Prop := ∀ t ∈ L.pool, ∀ i ∈ t.ins, spentConfirmed L i = false
 
 theorem eq_of_nodup_map {α β : Type} (f : α → β) : ∀ (l : List α), (l.map f).Nodup →
     ∀ a ∈ l, ∀ b ∈ l, f a = f b → a = b := by
